@@ -30,7 +30,7 @@ Example erasure_needed :
                 len_check := len_check config_gen; ft_closure := ft_closure config_gen;
                 defaults_guard := defaults_guard config_gen; kwdefaults_guard := kwdefaults_guard config_gen;
                 wrap_module := wrap_module config_gen; erase_defaults := EraseAll;
-                erase_kwdefaults := EraseNothing; erase_const := EConstNone;
+                erase_kwdefaults := EraseNothing; erase_const := EConstNone; erase_kwconst := EConstNone;
                 erase_before_transform := true; deco_top := deco_top config_gen;
                 deco_nested := deco_nested config_gen; deco_level := deco_level config_gen |} in
   let o := {| o_sig := mkSig (mkParams [] ["x"%string] None ["k"%string] None) [DUser 1] [Some (DUser 2)];
